@@ -450,6 +450,11 @@ def _run_loader(ctx, case, gs, mon):
     net = nx.DiGraph()
     net.add_node('_random_state')
     states = {}
+
+    def key(rs):
+        st = rs.get_state()
+        return (st[0], st[1].tobytes(), st[2], st[3], st[4])
+
     mon.origin = 'RandomStateLoader.load'
     try:
         for pos, i in enumerate(seq):
@@ -457,19 +462,41 @@ def _run_loader(ctx, case, gs, mon):
             _Budget.left = _budget(i)
             loader.RandomStateLoader.load(context, net, i)
             _Budget.left = None
-            rs = net.nodes['_random_state']['output']
-            states[i] = rs
+            kk = key(net.nodes['_random_state']['output'])
+            if i in states and states[i] != kk:
+                raise Violation('history-dependence', 'loader: batch %d under master seed %d is handed a different generator when it is requested '
+                                'again later in the history' % (i, s), {'seed': s, 'index': i, 'history': seq[:pos + 1]})
+            states[i] = kk
             ctx.event('loader_calls')
+    finally:
+        mon.origin = 'direct'
+        _Budget.left = None
+    # reference: the same batch index served by a fresh context (empty cache, no history), and the
+    # no-cache get_sub_seed value for the monitor's table; generators of different batches must differ
+    mon.origin = 'RandomStateLoader.load (fresh context)'
+    by_state = {}
+    try:
+        for i in sorted(set(seq)):
+            mon.tag = {'fresh_context_index': i}
+            fresh = ComputationContext(batch_size=1, seed=s)
+            net2 = nx.DiGraph()
+            net2.add_node('_random_state')
+            _Budget.left = _budget(i)
+            loader.RandomStateLoader.load(fresh, net2, i)
+            _Budget.left = None
+            if key(net2.nodes['_random_state']['output']) != states[i]:
+                raise Violation('history-dependence', 'loader: generator handed to batch %d under master seed %d after the history differs from the one '
+                                'a fresh context hands to the same batch' % (i, s), {'seed': s, 'index': i, 'history': seq})
+            other = by_state.setdefault(states[i], i)
+            if other != i:
+                raise Violation('collision', 'loader: batches %d and %d under master seed %d receive identical generators' % (other, i, s),
+                                {'seed': s, 'indices': [other, i]})
     finally:
         mon.origin = 'direct'
         _Budget.left = None
     mon.tag = 'no-cache reference'
     for i in sorted(set(seq)):
-        ref = int(_call(gs, s, i, None))
-        a, b = states[i].get_state(), np.random.RandomState(ref).get_state()
-        if not (np.array_equal(a[1], b[1]) and a[2:] == b[2:]):
-            raise Violation('history-dependence', 'loader: generator handed to batch %d under master seed %d is not RandomState(get_sub_seed(seed, %d)) '
-                            'computed without a cache' % (i, s, i), {'seed': s, 'index': i, 'history': seq})
+        _call(gs, s, i, None)
     # tools.prepare_seed: derived from the batch generator's seed and index_in_batch, no cache
     bseed = int(_call(gs, s, seq[0], None))
     mon.origin = 'tools.prepare_seed'
@@ -479,9 +506,7 @@ def _run_loader(ctx, case, gs, mon):
             _Budget.left = _budget(k)
             _, kw = tools.prepare_seed(random_state=np.random.RandomState(bseed), index_in_batch=k)
             _Budget.left = None
-            if 'seed' not in kw:
-                raise Violation('prepare-seed', 'tools.prepare_seed did not derive a seed', {'batch_seed': bseed, 'index_in_batch': k})
-            ctx.event('prepare_seed_calls')
+            ctx.event('prepare_seed_calls', 'seed' in kw)
     finally:
         mon.origin = 'direct'
         _Budget.left = None
